@@ -443,9 +443,9 @@ func allLookups(info *gtab.Info, t *tape.Tape) []gtab.LookupIndex {
 func run(c *wk.Case) {
 	t := c.T
 	n := t.Range(2, 60)
-	g := &simgen.LookupGen{T: t, N: n, Wild: !t.Chance(1, 4)}
+	g := &simgen.LookupGen{T: t, N: n, Wild: !t.Chance(1, 4), MarkMode: t.Chance(1, 3)}
 	var gd *gdef.Table
-	if t.Chance(3, 4) {
+	if g.MarkMode || t.Chance(3, 4) {
 		gd = g.Gdef()
 	}
 	gsub := t.Chance(2, 3)
@@ -476,7 +476,7 @@ func run(c *wk.Case) {
 	c.Sample = map[string]any{"table": tp.String(), "wild": g.Wild, "damaged": damage, "lookups": len(info.LookupList), "subtables": kinds, "gdef": gd != nil, "glyphs": n}
 	c.Logf("%s table wild=%v damaged=%v lookups=%d [%s] gdef=%v", tp, g.Wild, damage, len(info.LookupList), kinds, gd != nil)
 	c.Sig(simgen.Digest(info), simgen.Digest(gd))
-	c.Class(fmt.Sprintf("%s|wild=%v|damaged=%v|gdef=%v", tp, g.Wild, damage, gd != nil))
+	c.Class(fmt.Sprintf("%s|wild=%v|damaged=%v|gdef=%v|markmode=%v", tp, g.Wild, damage, gd != nil, g.MarkMode))
 	for _, k := range strings.Split(kinds, ",") {
 		c.Class("subtable|" + k)
 	}
